@@ -1,6 +1,7 @@
 package props
 
 import (
+	"verif/harness/pgfake"
 	"bytes"
 	"context"
 	"fmt"
@@ -97,7 +98,7 @@ func (m *c02Model) allowed(id *c02Identity, num int64, ts uint64) (bool, string)
 
 func TestC02_NeverEarly(t *testing.T) {
 	rec := recorder("C02")
-	rec.AddRule("rapid state machine over one Shutter-service keyper (verif-tagged constructor, real trigger decision code, real KeyShareHandler and service middleware behind the trigger channel, real schema on pgfake): 1-3 keyper sets (member / not member, distinct and equal activation blocks), eons {none, pending, failed, succeeded, failed-then-restarted pending|succeeded, succeeded-then-restarted pending|failed|succeeded}, time-registered identities with release times at tau-1 / tau / tau+1 around the generated block times, event-trigger registrations with and without a fired_triggers row, decrypted flags; actions: new block (number, time; non-monotone times allowed), register identity, DKG event (eon row / dkg_result row appears), keys released (real keys handler with the keys of 1-3 identities of one keyper set -> decrypted flags), restart (new Keyper object on the same database). Oracle (safety): every identity of every trigger put on the channel while processing block (N, tau), and of every DecryptionKeyShares message handed to SendMessage, satisfies the statement's release condition in the model; identities of a trigger are strictly increasing; a share message names the keyper set the identity was registered for (judged when that set is the only one activating at its block). non-trivial = a block whose time equals a pending release time, or processed while the identity's set has a failed/pending newest eon, or a restart between registration and release; distinct by history")
+	rec.AddRule("rapid state machine over one Shutter-service keyper (verif-tagged constructor, real trigger decision code, real KeyShareHandler and service middleware behind the trigger channel, real schema on pgfake): 1-3 keyper sets (member / not member, distinct and equal activation blocks), eons {none, pending, failed, succeeded, failed-then-restarted pending|succeeded, succeeded-then-restarted pending|failed|succeeded}, time-registered identities with release times at tau-1 / tau / tau+1 around the generated block times, event-trigger registrations with and without a fired_triggers row, decrypted flags; actions: new block (number, time; non-monotone times allowed; one block in six with one failing database statement), register identity, DKG event (eon row / dkg_result row appears), keys released (real keys handler with the keys of 1-3 identities of one keyper set -> decrypted flags), restart (new Keyper object on the same database). Oracle (safety): every identity of every trigger put on the channel while processing block (N, tau), and of every DecryptionKeyShares message handed to SendMessage, satisfies the statement's release condition in the model; identities of a trigger are strictly increasing; a share message names the keyper set the identity was registered for (judged when that set is the only one activating at its block). non-trivial = a block whose time equals a pending release time, or processed while the identity's set has a failed/pending newest eon, or a restart between registration and release; distinct by history")
 	rec.Assume("pgfake; fired_triggers rows are written by the harness only for logs within the trigger's lifetime (producing them from chain logs is C16's subject)")
 	ctx := context.Background()
 	runRapid(t, N(600, 8000), func(rt *rapid.T) {
@@ -278,7 +279,23 @@ func TestC02_NeverEarly(t *testing.T) {
 				}
 				hdr := &types.Header{Number: big.NewInt(blockNum), Time: blockTime}
 				ev := &syncevent.LatestBlock{Number: number.BigToBlockNumber(hdr.Number), BlockHash: hdr.Hash(), Header: hdr}
-				if err := kpr.VerifMaybeTriggerDecryption(ctx, ev); err != nil {
+				// one block in six: one database statement issued while the block is processed fails (a transient
+				// error); whatever is still sent must satisfy the release condition, an error return is fine
+				faultAt := 0
+				if rapid.IntRange(0, 5).Draw(rt, "dbFault") == 0 {
+					faultAt = rapid.IntRange(1, 8).Draw(rt, "dbFaultAt")
+					node.DB.Srv.SetFault(node.DB.Srv.RoundTrips()+int64(faultAt), pgfake.FaultError)
+					desc = append(desc, fmt.Sprintf("db-statement-%d-of-the-next-block-fails", faultAt))
+				}
+				err := kpr.VerifMaybeTriggerDecryption(ctx, ev)
+				if faultAt > 0 {
+					if node.DB.Srv.FaultFired() {
+						labels = append(labels, "database-statement-failed-while-processing-a-block")
+						nontrivial = true
+					}
+					node.DB.Srv.SetFault(0, pgfake.FaultNone)
+				}
+				if err != nil && faultAt == 0 {
 					fatalf(rt, "trigger-decision-error", "maybeTriggerDecryption: %v\nhistory: %s", err, strings.Join(desc, " ; "))
 				}
 				// drain the channel, judge every trigger, then hand it to the real key share handler
